@@ -21,7 +21,7 @@ WATCHDOG = {"quick": 900, "thorough": 3000}
 SANITIZE = {"quick": ["asan", "bounds"], "thorough": ["asan", "bounds"]}
 SANITIZE_SHARDS = {"quick": 1, "thorough": 1}
 REQUIRED_CLASSES = {t: ["equal_neighbouring_ranges", "extreme_reached_twice", "constant_prefix", "constant_suffix",
-                        "signal_len_2", "plateau_reversal", "float_signal", "closing_tie_decides", "near_equal_neighbours"]
+                        "signal_len_2", "plateau_reversal", "float_signal", "closing_tie_decides", "near_equal_neighbours", "signal:other_container_or_dtype"]
                     for t in ("quick", "thorough")}
 REQUIRED_MONITORS = ["find_turns==ref", "fourpoint:cycles==ref(ordered,values+indices)", "fourpoint:residual==ref",
                      "threepoint:cycle_multiset==ref", "threepoint:residual==ref", "fkm:cycles==ref_hcm(ordered)",
@@ -118,14 +118,17 @@ def run_case(case, ctx):
     ctx.nontrivial(len(ref_cycles) > 0)
 
     # ---- four point: ordered cycles with indices, residual
-    r4 = rf.run("fourpoint", [x])
+    vary = len(x) % 4 == 1                   # a quarter of the signals: handed over as list / tuple / int64 / float32 / view / Series
+    if vary:
+        ctx.tag("signal:other_container_or_dtype")
+    r4 = rf.run("fourpoint", [x], vary=vary)
     got = list(zip(r4.vf.tolist(), r4.vt.tolist(), r4.i_f.tolist(), r4.i_t.tolist()))
     ctx.check("fourpoint:cycles==ref(ordered,values+indices)", got == ref_cycles, observed=got, expected=ref_cycles)
     gres = list(zip(r4.res_idx.tolist(), r4.res.tolist()))
     ctx.check("fourpoint:residual==ref", gres == [(i, v) for i, v in ref_res], observed=gres, expected=ref_res)
 
     # ---- three point: multiset of cycles, same residual
-    r3 = rf.run("threepoint", [x])
+    r3 = rf.run("threepoint", [x], vary=vary)
     got3 = collections.Counter(zip(r3.vf.tolist(), r3.vt.tolist(), r3.i_f.tolist(), r3.i_t.tolist()))
     ctx.check("threepoint:cycle_multiset==ref", got3 == collections.Counter(ref_cycles),
               observed=sorted(got3.elements()), expected=sorted(ref_cycles))
@@ -134,7 +137,7 @@ def run_case(case, ctx):
 
     # ---- FKM: HCM on interior reversals
     hc, hres = R.hcm([sig[i] for i in rev])
-    rk = rf.run("fkm", [x])
+    rk = rf.run("fkm", [x], vary=vary)
     gk = list(zip(rk.vf.tolist(), rk.vt.tolist()))
     ctx.check("fkm:cycles==ref_hcm(ordered)", gk == hc, observed=gk, expected=hc)
     ctx.check("fkm:residual==ref_hcm", rk.res.tolist() == hres, observed=rk.res, expected=hres)
